@@ -19,7 +19,7 @@ Rec(a, ev) == [act |-> a, ev |-> ev, exp |-> Obs,
                \* the step examines a stop that came during the wait / is the cleanup such an examination leads to
                late |-> \/ (pc = "sleep" /\ stopflag /\ More)
                         \/ (pc = "cleanup" /\ LastThreadAct = "wake"),
-               fm |-> fm]
+               fm |-> fm, hook |-> hook]
 NoEv == [ev |-> "none"]
 
 GInit == SInit /\ hist = <<>>
